@@ -38,6 +38,9 @@ def run(cx, tier='quick'):
     c13_param.check(cx, facts, rep)
     c13_sel.check(cx, facts, rep)
     check_field_scan_coverage(cx, facts, rep)
+    # per-element state: the flags behind "given twice" / "nothing to show" refusals live as long as the element they describe
+    from .scope import check_scopes
+    check_scopes(cx, rep, None)
     rep.floor('SCAN', 90, '(24 scanners × ≥4 obligations)')
     rep.floor('COUPLE', 3)
     rep.assumptions += ['syn::Attribute/Meta parsing', 'documented acceptance table (README / crate docs) as transcribed in sa/props/c13_param.py']
@@ -113,6 +116,27 @@ def check_scanners(cx, facts, rep):
             rep.ok('SCAN', where + '|not-educed-trait-rejected')
         else:
             rep.bad('SCAN', where, 'trait-not-used', 'an attribute for a trait that is not educed on the type is not rejected (`!traits.contains(&t)` ⇒ Err(trait_not_used) missing)', f.file, f.line)
+        # S2a: metas of *other* educed traits are none of this scanner's business: every refusal inside the meta loop is either one
+        # of the two generic ones or sits in the branch of one named trait (`t == Trait::K`)
+        branch_ids = set(b.ev.pos['id'] for b in sc.branches)
+        okinert = True
+        for ev, c in sc.exits:
+            if not any(x.get('id') == mid and x['k'] == 'for' for x in ev.ctx):
+                continue
+            if any(ev is e2 for e2, _ in unsupported) and any(x['k'] == 'arm' and pat_s(x['pat']) == 'None' for x in ev.ctx):
+                continue
+            if any(ev is e2 for e2, _ in not_used):
+                at = facts.atoms(ev.ctx, sc.fw)
+                if any(a[0] == 'cond' and ((a[2] is False and a[1].replace(' ', '') == 'traits.contains(&t)') or (a[2] is True and a[1].replace(' ', '') == '!traits.contains(&t)')) for a in at):
+                    continue
+            if any(x['k'] == 'if' and x.get('id') in branch_ids and x.get('pol') and not x.get('prior') for x in ev.ctx):
+                continue
+            okinert = False
+            rep.bad('SCAN', where, 'foreign-refusal=%s' % (c or '?').split('::')[-1],
+                    'a refusal inside the meta loop that is neither the unknown-trait / not-educed check nor inside the branch of one named trait (`t == Trait::K`): '
+                    'an attribute of another educed trait on the same field or variant can make this trait\'s derive fail', f.file, ev.line)
+        if okinert:
+            rep.ok('SCAN', where + '|foreign-metas-inert')
         # S2b: the result may not be overwritten from one attribute to the next (last attribute wins): every assignment inside a loop
         # must be dominated by the "already set ⇒ Err" check; collections of metas (Into) must live outside the loops
         tail = sc.fw.tail
